@@ -357,7 +357,8 @@ def ctor_norm_interp(ctx):
                 lambda A=A, B=B, s=s: sm.UnitQuaternion(ref.r2q_ref(A)).interp(s, dest=sm.UnitQuaternion(ref.r2q_ref(B))), key=('UQi', nm))
     # close pairs: the end pose is the start pose turned by a small angle (slerp changes arm for nearly equal quaternions)
     S2 = S + [('0.7', 0.7)]
-    for an, A in G3[:5]:
+    # (the starts just short of a half turn put the two extracted quaternions in opposite hemispheres once the end pose has crossed it)
+    for an, A in G3[:5] + [('Rz(pi-0.05)', ref.rotz(PI - 0.05)), ('Rz(pi-1e-4)', ref.rotz(PI - 1e-4)), ('Rz(pi-3e-7)', ref.rotz(PI - 3e-7))]:
         for dn, dl in [('1e%d' % k, 10.0 ** k) for k in (alph.ks(tier) if tier != 'quick' else (-12, -9, -7, -6, -5, -4, -3, -2, -1))] + [('3e-4', 3e-4), ('2e-3', 2e-3)]:
             for xn, ax in alph.axes(tier, seed)[2:5]:
                 B = A @ ref.mp_rot(ax, dl)
